@@ -220,7 +220,7 @@ func c13Body(bg *[65536]uint8, sc *c13Scenario, world **c13World) func(s *sched.
 }
 
 // c13Judge evaluates one finished execution. Returns the diff (nil = fine).
-func c13Judge(bg *[65536]uint8, sc *c13Scenario, x *sched.Scheduler, w *c13World, spawned int, races []string) []string {
+func c13Judge(bg *[65536]uint8, sc *c13Scenario, x *sched.Scheduler, w *c13World, spawned int, races []string, virtual map[int]bool) []string {
 	progs := c13Progs()
 	p := &progs[sc.Prog]
 	out := w.out
@@ -244,9 +244,16 @@ func c13Judge(bg *[65536]uint8, sc *c13Scenario, x *sched.Scheduler, w *c13World
 		}
 		return []string{"Run did not return"}
 	}
-	// leak: Run returned but a thread it spawned can never finish
-	if un := x.Unfinished(); len(un) > 0 {
-		d = append(d, fmt.Sprintf("Run returned (%v) and left goroutine(s) behind that can never finish: %v", out.err, un))
+	// leak: Run returned but a thread it spawned can never finish (threads that only stand for a
+	// registered callback which never fired are not goroutines)
+	leaked := 0
+	for _, id := range x.UnfinishedIDs() {
+		if !virtual[id] {
+			leaked++
+		}
+	}
+	if leaked > 0 {
+		d = append(d, fmt.Sprintf("Run returned (%v) and left goroutine(s) behind that can never finish: %v", out.err, x.Unfinished()))
 	}
 	for i, e := range out.firstErrs {
 		if e != nil && e != z80.ErrBreakPoint && e != context.Canceled && e != context.DeadlineExceeded {
@@ -395,10 +402,11 @@ func checkC13(c *Ctx) {
 		st := sched.Explore(b, c13Horizon, 400000, c13Body(bg, sc, &world), func(x *sched.Scheduler) bool {
 			spawned := rt.Spawned
 			races := append([]string{}, rt.HB.Races...)
+			virtual := rt.Virtual
 			rt.Uninstall()
 			w := world
 			spawnedTotal += int64(spawned)
-			d := c13Judge(bg, sc, x, w, spawned, races)
+			d := c13Judge(bg, sc, x, w, spawned, races, virtual)
 			outcomes[fmt.Sprintf("%s|bp%d|can%d|%s", sc.Name, sc.BP, sc.Canceller, w.out.sig())]++
 			if nSamples < 4 && (first || (len(x.Steps) > 8 && x.Steps[3].Chosen+x.Steps[5].Chosen+x.Steps[7].Chosen > 0 && si%7 == 3)) {
 				// actual explored executions, written out
@@ -491,8 +499,9 @@ func replayC13(c *Ctx, raw []byte) []string {
 	x := sched.Execute(sc.Sched, c13Horizon, c13Body(bg, &sc, &w))
 	races := append([]string{}, rt.HB.Races...)
 	spawned := rt.Spawned
+	virtual := rt.Virtual
 	rt.Uninstall()
-	return c13Judge(bg, &sc, x, w, spawned, races)
+	return c13Judge(bg, &sc, x, w, spawned, races, virtual)
 }
 
 func headInts(a []int, n int) []int {
